@@ -176,6 +176,7 @@ def run_cli(case, timeout=120):
         ex = G.EXPRS[cfg["expr"]]
         if ex["text"]:
             args.append("--tags=%s" % ex["text"])
+            args += ["--tags=%s" % t for t in ex.get("more", [])]
         if cfg.get("wip"):
             args.append("--wip")
         if cfg.get("loglevel"):
